@@ -4,7 +4,9 @@ from props.apicommon import api_obs
 
 NEEDS_LEXER = False
 FUNCS = ["cfg_opt_setnint/-float/-bool/-str", "cfg_opt_getval", "cfg_addval", "cfg_setlist", "cfg_addlist", "cfg_addlist_internal", "cfg_opt_setmulti", "cfg_setopt",
-         "cfg_addtsec", "cfg_opt_rmnsec", "cfg_opt_rmtsec", "cfg_opt_gettsec", "cfg_free_value", "cfg_free", "cfg_getopt (leaf)"]
+         "cfg_addtsec", "cfg_opt_rmnsec", "cfg_opt_rmtsec", "cfg_opt_gettsec", "cfg_free_value", "cfg_free", "cfg_getopt (leaf)",
+         "cfg_opt_size", "cfg_size", "cfg_opt_getn{int,float,bool,str,ptr,sec}", "cfg_getn{int,float,bool,str,ptr,sec}", "cfg_get{int,float,bool,str,ptr,sec}", "cfg_title", "cfg_name", "cfg_opt_name",
+         "cfg_opt_gettsec", "cfg_gettsec", "cfg_opt_getcomment", "cfg_getcomment", "cfg_num", "cfg_numopts", "cfg_getnopt"]
 
 
 def build_obs(tier, tables=None):
@@ -13,13 +15,16 @@ def build_obs(tier, tables=None):
     # by index checked above; the resolver's answer is checked on shaped paths (shared with C11)
     import props.C11 as C11
     obs += [o for o in C11.build_obs(tier) if "-fn2-" in o.key]
+    # the observation layer ('as observed through size, indexed getters, titles'): readers vs stored state
+    from props.getcommon import get_obs
+    obs += get_obs("c09", "CHK_C09", tier)
     return obs
 
 
 def run(tier, seed):
     return run_with(
         "C09", tier, seed, build_obs, functions=FUNCS,
-        bounds="one public mutator call per obligation from a harness-built valid option state: option kind (int, str, bool scalar; int, str, float list; titled/untitled multi section, single section) x 0-3 values held x call (indexed setter, wrong-type setter, list set/append with 0-2 values, bulk set of 1-3 strings, add titled section, remove by index/title with and without a search path); symbolic: stored values, RESET/MODIFIED bits, annotation, arguments (values, index 0..4, 1-2 byte strings); titles of existing instances concrete ('A','B','C')",
+        bounds="(readers: every public getter, by option and by name, on an option of each kind holding 0-3 symbolic values, index symbolic over all 2^32 values - get_step.c) one public mutator call per obligation from a harness-built valid option state: option kind (int, str, bool scalar; int, str, float list; titled/untitled multi section, single section) x 0-3 values held x call (indexed setter, wrong-type setter, list set/append with 0-2 values, bulk set of 1-3 strings, add titled section, remove by index/title with and without a search path); symbolic: stored values, RESET/MODIFIED bits, annotation, arguments (values, index 0..4, 1-2 byte strings); titles of existing instances concrete ('A','B','C')",
         assumptions=[
             "abstract store = ordered value sequence per option + title-keyed section sequence, observed through cfg_opt_size / cfg_opt_getn* / cfg_title / CFGF_MODIFIED; arbitrary call sequences follow by induction from 'any valid state' (paper argument)",
             "an indexed set beyond the end appends exactly one value (no gap filling); a set on an option that still holds only defaults first drops them",
